@@ -263,6 +263,8 @@ def make_shims(sched):
 
         def join(self, timeout=None):
             c = cur()
+            if self._ct is None:
+                raise RuntimeError('cannot join thread before it is started')
             # join(timeout) returns silently when the timeout expires
             sched.yield_op(c, 'join:' + self.name, lambda: self._ct is None or self._ct.finished,
                            timeout is not None)
